@@ -166,6 +166,24 @@ def harness_for(cfg):
                     base = E.int(f"b{n}", 0, top) if it["mode"] == "sym" else None
                     # multi-part names (string and integer parts) every other window
                     name = ((f"w{n}",) if n % 2 else ("bank", n, "io")) if it["named"] else None
+                    # lookups made BEFORE the window is there are part of the history as well (a driver probing whether a
+                    # device or a fixed address is mapped yet): the resources behind the window are not found yet, the
+                    # probed address holds what was added so far - and neither answer may stick
+                    for r, s, e, w, path in sub:
+                        try:
+                            mm.find_resource(r)
+                            E.prove(False, "find_resource found a resource before its window was added")
+                        except KeyError:
+                            pass
+                    for probe in ([base] if base is not None else []) + [0, top - 1]:
+                        d0 = mm.decode_address(probe)
+                        if d0 is None:
+                            for r, s, e, w, path in local:
+                                E.prove(b_or(probe < s, probe >= e), "an address inside a reported range decodes to nothing")
+                        else:
+                            hit = [x for x in local if x[0] is d0]
+                            E.prove(len(hit) == 1 and b_and(probe >= hit[0][1], probe < hit[0][2]),
+                                    "decode_address during construction returned a resource whose range does not contain the address")
                     try:
                         ws, we, ratio = mm.add_window(child, name=name, addr=base, sparse=it["sparse"])
                     except ValueError:
